@@ -15,7 +15,15 @@ import Model.Membership
   drawn from it (`value`), write it into a copy of the parent, and deactivate/activate the children
   by the conditions (`deactivateCS` again: drops what became inactive, keeps the placeholder of what
   became active, validates); a `ForbiddenValueError` means "draw another mutation", any other
-  exception propagates; after 100 forbidden mutations a fresh sample is used.
+  exception propagates; after 100 forbidden mutations a fresh ConfigSpace sample is used;
+* **completion** (`complete`): whatever branch produced it — the random phase, a validated
+  mutation, the fallback sample — a proposal gets a value for every hyperparameter of the problem:
+  a ConfigSpace configuration holds values for its active hyperparameters only, the absent ones
+  get `get_inactive_value_of_hyperparameter` (= `fillInactive`), and NumPy scalars are converted
+  to Python values (`.tolist()`; `Val` only has the Python kinds, so a value that stayed a NumPy
+  scalar has no counterpart here).  The raw samples — a value or *absent* per hyperparameter — are
+  the environment input; the completion happens inside the model, in the random phase and in the
+  fallback branch alike.
 
 Seeded choices (`RandomState.choice`, `hp.rvs`, `sample_configuration`) are environment inputs.
 The code is modelled after the fixes of branch `fix-g5` (retry on forbidden mutations, placeholder
@@ -31,6 +39,7 @@ open DH.Mem
 inductive Err
   | badIndex                 -- an index / a name the environment supplied does not exist
   | envShort                 -- the environment supplied too few samples / attempts
+  | badSample                -- a ConfigSpace sample that has not one entry per hyperparameter
   | deactRaises (e : DErr)   -- ConfigSpace raised (other than a forbidden mutation)
   deriving DecidableEq, Repr
 
@@ -44,11 +53,31 @@ structure Attempt where
   name : String
   value : Val
 
+/-- a ConfigSpace configuration as it is sampled: a value for every *active* hyperparameter,
+nothing (`none`) for the inactive ones -/
+abbrev Sample := List (Option Val)
+
 /-- environment of one child -/
 structure ChildEnv where
   idxs : List Nat               -- `choice(population_size, size=sample_size, replace=False)`
   attempts : List Attempt       -- as many as were needed (at most 100 are used)
-  fresh : Config                -- the (completed) fresh sample used when every mutation is forbidden
+  fresh : Sample                -- `space.sample_configuration()`, used when every mutation is forbidden
+
+/-- the completion every proposal goes through before it is handed out
+(`for hp_name in self._problem.hyperparameter_names: if hp_name not in sample: sample[hp_name] =
+get_inactive_value_of_hyperparameter(...)`): a value for every hyperparameter -/
+def complete (d : Decl) (s : Sample) : Except Err Config :=
+  match fillInactive d.hps s with
+  | some x => .ok x
+  | none => .error .badSample
+
+def completeAll (d : Decl) : List Sample → Except Err (List Config)
+  | [] => .ok []
+  | s :: ss =>
+    match complete d s, completeAll d ss with
+    | .ok x, .ok xs => .ok (x :: xs)
+    | .error e, _ => .error e
+    | _, .error e => .error e
 
 /-- `deque.append` with `maxlen` -/
 def push (popSize : Nat) (pop : List (Config × Rat)) (e : Config × Rat) : List (Config × Rat) :=
@@ -95,22 +124,28 @@ def mutate (ne : NumEnv) (d : Decl) (parent : Config) (active : List Bool) :
         | .error .forbidden => mutate ne d parent active k rest
         | .error e => .error (.deactRaises e)
 
+/-- `max(samples, key=...)[0]` over the sampled members of the population -/
+def parentOf (st : St) (idxs : List Nat) : Option Config :=
+  match samplesOf st.pop idxs with
+  | none => none
+  | some samples => (best samples).map (·.1)
+
 /-- one child of the regularized evolution -/
 def child (ne : NumEnv) (d : Decl) (st : St) (env : ChildEnv) : Except Err Config :=
-  match samplesOf st.pop env.idxs with
+  match parentOf st env.idxs with
   | none => .error .badIndex
-  | some samples =>
-    match best samples with
-    | none => .error .badIndex
-    | some (parent, _) =>
-      -- active hyperparameters of the parent (`drop_inactive_values` + ConfigSpace's check)
-      match deactivateCS ne d parent with
-      | .error e => .error (.deactRaises e)
-      | .ok p0 =>
-        match mutate ne d parent (activeList d p0) 100 env.attempts with
-        | .error e => .error e
-        | .ok (some y) => .ok y
-        | .ok none => .ok env.fresh
+  | some parent =>
+    -- active hyperparameters of the parent (`drop_inactive_values` + ConfigSpace's check)
+    match deactivateCS ne d parent with
+    | .error e => .error (.deactRaises e)
+    | .ok p0 =>
+      match mutate ne d parent (activeList d p0) 100 env.attempts with
+      | .error e => .error e
+      -- a validated mutation: `deactivateCS` has already put the placeholders of the inactive
+      -- hyperparameters back, the completion finds nothing absent
+      | .ok (some y) => .ok y
+      -- no valid mutation was found: a new random configuration is sampled — and completed
+      | .ok none => complete d env.fresh
 
 def children (ne : NumEnv) (d : Decl) (st : St) : List ChildEnv → Except Err (List Config)
   | [] => .ok []
@@ -120,18 +155,18 @@ def children (ne : NumEnv) (d : Decl) (st : St) : List ChildEnv → Except Err (
     | .error err, _ => .error err
     | _, .error err => .error err
 
-/-- `RegularizedEvolution._ask(n)`: `fresh` = the `n` completed ConfigSpace samples (random
-phase), `envs` = one environment per child (evolution phase) -/
-def ask (ne : NumEnv) (d : Decl) (st : St) (n : Nat) (fresh : List Config) (envs : List ChildEnv) :
+/-- `RegularizedEvolution._ask(n)`: `fresh` = the `n` ConfigSpace samples of the random phase
+(completed here), `envs` = one environment per child (evolution phase) -/
+def ask (ne : NumEnv) (d : Decl) (st : St) (n : Nat) (fresh : List Sample) (envs : List ChildEnv) :
     Except Err (List Config) :=
   if st.pop.length < st.popSize then
-    if fresh.length = n then .ok fresh else .error .envShort
+    if fresh.length = n then completeAll d fresh else .error .envShort
   else
     if envs.length = n then children ne d st envs else .error .envShort
 
 /-- a call of the ask/tell interface of the search -/
 inductive Op
-  | ask (n : Nat) (fresh : List Config) (envs : List ChildEnv)
+  | ask (n : Nat) (fresh : List Sample) (envs : List ChildEnv)
   | tell (results : List (Config × Option Rat))
 
 /-- any sequence of ask/tell calls; returns the final state and all proposals in order -/
